@@ -23,6 +23,8 @@ class Ctx:
         print("exit", et is not None)
         return self.swallow and et is not None
 G = [0]
+class MyErr(KeyError):
+    pass
 '''
 
 INT_VARS = ["x", "y", "z"]
@@ -96,8 +98,13 @@ class Gen:
             return f"({self.cond(d + 1)} {r.choice(['and', 'or'])} {self.cond(d + 1)})"
         if c < 0.55:
             return f"not {self.cond(d + 1)}"
-        if c < 0.63:
+        if c < 0.60:
             return f"{r.choice(['o', 'o', 'l', 's'])} is {r.choice(['', 'not '])}None"
+        if c < 0.63:
+            # None check applied directly to a comparison / containment / identity result
+            inner = r.choice([self.cmp(d + 1), f"{self.atom()} {r.choice(['in', 'not in'])} {r.choice(['l', '(1, 2, 3)', 's'])}",
+                              f"o is {r.choice(['s', 'None', 'l'])}", f"{self.atom()} == o"])
+            return f"({inner}) is {r.choice(['', 'not '])}None"
         if c < 0.72:
             return f"{self.atom()} {r.choice(['in', 'not in'])} {r.choice(['l', 'l', 'o', 's', '(1, 2, 3)'])}"
         if c < 0.78:
@@ -142,7 +149,7 @@ class Gen:
         elif c < 0.92:
             self.emit(ind, f"return {self.iexpr(1)}" if self.fun_depth == 0 or r.random() < 0.7 else "return")
         elif c < 0.96:
-            self.emit(ind, f"raise {r.choice(['ValueError', 'KeyError', 'ZeroDivisionError'])}({self.atom()})")
+            self.emit(ind, f"raise {r.choice(['ValueError', 'KeyError', 'ZeroDivisionError', 'MyErr', 'IndexError'])}({self.atom()})")
         else:
             self.emit(ind, f"assert {self.cond(1)}")
 
@@ -212,7 +219,9 @@ class Gen:
             if shape in ("except", "both", "else"):
                 for _ in range(r.choice([1, 1, 2])):
                     exc = r.choice(["ZeroDivisionError", "IndexError", "(ValueError, KeyError)", "TypeError",
-                                    "Exception", "ArithmeticError", "LookupError"])
+                                    "Exception", "ArithmeticError", "LookupError", "(KeyError, IndexError)",
+                                    "(TypeError, ZeroDivisionError, ValueError)", "(LookupError, ArithmeticError)",
+                                    "(MyErr,)", "(IndexError, MyErr, TypeError)", "(AttributeError, UnboundLocalError)"])
                     self.emit(ind, f"except {exc}{r.choice(['', ' as ex'])}:")
                     self.block(ind + 1)
                 if shape == "else" or r.random() < 0.2:
@@ -415,6 +424,88 @@ class LoggingStr(str):
         return str.isalnum(self)
 
 
+def _op_methods(base, tag):
+    """Overrides for a str/bytes subclass: every user-visible method logs its call; `+` optionally raises."""
+    def __add__(self, other):
+        Adv.LOG.append(tag + ".__add__")
+        if getattr(self, "mode", "plain") == "raise":
+            raise ArithmeticError("adversarial +")
+        return base.__add__(self, other)
+
+    def __radd__(self, other):
+        Adv.LOG.append(tag + ".__radd__")
+        if getattr(self, "mode", "plain") == "raise":
+            raise ArithmeticError("adversarial +")
+        return other + base.__getitem__(self, slice(None))
+
+    def upper(self):
+        Adv.LOG.append(tag + ".upper")
+        return base.upper(self)
+
+    def lower(self):
+        Adv.LOG.append(tag + ".lower")
+        return base.lower(self)
+
+    def isalnum(self):
+        Adv.LOG.append(tag + ".isalnum")
+        return base.isalnum(self)
+
+    def islower(self):
+        Adv.LOG.append(tag + ".islower")
+        return base.islower(self)
+
+    def isupper(self):
+        Adv.LOG.append(tag + ".isupper")
+        return base.isupper(self)
+
+    def isdigit(self):
+        Adv.LOG.append(tag + ".isdigit")
+        return base.isdigit(self)
+
+    def __len__(self):
+        Adv.LOG.append(tag + ".__len__")
+        return base.__len__(self)
+
+    def __str__(self):
+        Adv.LOG.append(tag + ".__str__")
+        return "opstr"
+
+    return {k: v for k, v in locals().items() if callable(v) and k not in ("base",)}
+
+
+class OpStr(str):
+    """str subclass overloading + and the predicates/case methods (logging; mode 'raise': + raises)."""
+    mode = "plain"
+    locals().update(_op_methods(str, "OpStr"))
+
+
+class OpBytes(bytes):
+    mode = "plain"
+    locals().update({k: v for k, v in _op_methods(bytes, "OpBytes").items() if k != "__str__"})
+
+
+class OpStrSW(OpStr):
+    """... that also overrides startswith/endswith (the subject calls these; the probes must not)."""
+
+    def startswith(self, *a):
+        Adv.LOG.append("OpStrSW.startswith")
+        return str.startswith(self, *a)
+
+    def endswith(self, *a):
+        Adv.LOG.append("OpStrSW.endswith")
+        return str.endswith(self, *a)
+
+
+def make_op(kind, val, mode):
+    cls = {"opstr": OpStr, "opstrsw": OpStrSW, "opbytes": OpBytes}[kind]
+    v = cls(val.encode() if kind == "opbytes" else val)
+    if mode == "raise":
+        v.mode = "raise"
+    return v
+
+
+OPKINDS = ("opstr", "opstrsw", "opbytes")
+
 NUMS = [0, 1, 2, 3, -1, 5, 10, 2**53 + 1, -(2**53) - 1, 0.5, -0.0, 1e308, "nan", "inf", "-inf", True]
 STRS = ["", "a", "ab", "abc", "A1", " ", "7", "b" * 12, "ß", "Ab c"]
 
@@ -428,7 +519,8 @@ def gen_input(rng) -> dict:
     lk = r.choice(["list", "list", "list", "tuple", "iter", "gen", "empty"])
     ln = 0 if lk == "empty" else r.choice([0, 1, 2, 3, 4])
     items = [r.choice([0, 1, 2, 3, -1, 5, 2**53 + 1, "nan", 1.5]) for _ in range(ln)]
-    ok = r.choice(["none", "int", "adv", "adv", "advfull", "advfull", "str", "lstr", "nan", "list", "iter", "big", "tuple", "bytes", "set"])
+    ok = r.choice(["none", "int", "adv", "adv", "advfull", "advfull", "str", "lstr", "nan", "list", "iter", "big", "tuple", "bytes", "set",
+                   "opstr", "opstr", "opstrsw", "opbytes"])
     o = {"k": ok}
     if ok in ("adv", "advfull"):
         o["mode"] = r.choice(["plain", "plain", "raise", "notimpl", "nonbool"])
@@ -437,10 +529,16 @@ def gen_input(rng) -> dict:
         o["v"] = r.choice([0, 1, 2, 3, 5])
     elif ok in ("str", "lstr"):
         o["v"] = r.choice(STRS)
+    elif ok in OPKINDS:
+        o["v"] = r.choice(STRS[:8])
+        o["mode"] = r.choice(["plain", "raise"])
     elif ok in ("list", "iter", "tuple", "set"):
         o["v"] = [r.choice([0, 1, 2, 3]) for _ in range(r.choice([0, 1, 3]))]
-    sk = r.choice(["str", "str", "str", "str", "bytes", "lstr"])
-    return {"a": gen_num(r), "b": gen_num(r), "s": {"k": sk, "v": r.choice(STRS)}, "l": {"k": lk, "v": items}, "o": o}
+    sk = r.choice(["str", "str", "str", "str", "bytes", "lstr", "opstr", "opstr", "opstrsw", "opbytes"])
+    sv = {"k": sk, "v": r.choice(STRS[:8] if sk in OPKINDS else STRS)}
+    if sk in OPKINDS:
+        sv["mode"] = r.choice(["plain", "raise"])
+    return {"a": gen_num(r), "b": gen_num(r), "s": sv, "l": {"k": lk, "v": items}, "o": o}
 
 
 def _num(v):
@@ -457,7 +555,10 @@ def materialise(spec: dict):
     """Fresh argument tuple (a, b, s, l, o) and the list of one-shot iterators among them."""
     a, b = _num(spec["a"]), _num(spec["b"])
     sk = spec["s"]
-    s = sk["v"] if sk["k"] == "str" else (sk["v"].encode() if sk["k"] == "bytes" else LoggingStr(sk["v"]))
+    if sk["k"] in OPKINDS:
+        s = make_op(sk["k"], sk["v"], sk.get("mode", "plain"))
+    else:
+        s = sk["v"] if sk["k"] == "str" else (sk["v"].encode() if sk["k"] == "bytes" else LoggingStr(sk["v"]))
     items = [_num(v) for v in spec["l"]["v"]]
     iters = []
     lk = spec["l"]["k"]
@@ -485,6 +586,8 @@ def materialise(spec: dict):
         o = os_["v"]
     elif k == "lstr":
         o = LoggingStr(os_["v"])
+    elif k in OPKINDS:
+        o = make_op(k, os_["v"], os_.get("mode", "plain"))
     elif k == "nan":
         o = math.nan
     elif k == "list":
@@ -505,6 +608,23 @@ def materialise(spec: dict):
 
 # Hand-written seeds: shapes that broke the unrepaired code (kept in corpus/C01.json too).
 SEED_PROGRAMS = [
+    # seeding: the startswith/endswith pattern matched in its plain form (all metric subsets, incl. none and
+    # LINE only); operands may be str/bytes subclasses overloading + and the string methods
+    PRELUDE + '''def f(a, b, s, l, o):
+    if s.startswith(o):
+        return 1
+    if o.endswith(s):
+        return 2
+    if s.endswith("b"):
+        return 3
+    if o.startswith("a"):
+        return 4
+    if s.islower():
+        return 5
+    if o.isalnum():
+        return 6
+    return 0
+''',
     # checked coverage: restoring stores of a multi-variable inlined comprehension without SWAP
     PRELUDE + '''def f(a, b, s, l, o):
     r = [(u, v) for u in l for v in l]
